@@ -106,6 +106,54 @@ theorem finTask_done_post (c c' : Ctx) (wr : Bool) (hk : c.wlSeen = true)
   · rename_i hf; rw [hf]; rfl
   · simp at h
 
+/-! ### C04 (stable half): a step that replaces every stable pod -/
+
+/-- **C04 (stable half)** — for every rollout, step and context: when a canary step with traffic whose
+    replicas cover the whole workload leaves `StepInit` (the batch is handed to the BatchRelease), the
+    stable Service exists un-pinned — for the first step as well.  (Outside known finding noRevKey.) -/
+theorem initStep_full_unpins (ro : Rollout) (step : Step) (c c' : Ctx) (err : Bool)
+    (hstyle : ro.style = .canary) (htr : stepHasTraffic step = true) (hro : c.ro = ro) (hhas : ro.hasTraffic = true)
+    (hseen : c.wlSeen = true) (hinit : c.sub.state = .init)
+    (hfull : scaledV step.replicas c.wl.replicas true ≥ c.wl.replicas)
+    (h : initStep ro step c = .ok c' err) (hleft : c'.sub.state ≠ .init) :
+    c'.net.stableExists = true → c'.net.stableSel.getD "" = "" := by
+  unfold initStep at h
+  simp only [hstyle, if_true, htr, not_true_eq_false, if_false, hfull] at h
+  obtain ⟨c1, rt, e, hcall, hcase⟩ := afterRetryCall_spec _ _ _ _ h
+  have hsub := callTM_sub _ _ _ _ _ _ hcall
+  rcases hcase with ⟨hc, _⟩ | ⟨hc, _⟩ | ⟨he, hrt, hk⟩
+  · subst hc; exact absurd (hsub.2.1.trans hinit) hleft
+  · subst hc; exact absurd (hsub.2.1.trans hinit) hleft
+  · -- the Service was restored in this reconcile (or already was): what the call leaves behind
+    have hnet : c1.net.stableExists = true → c1.net.stableSel.getD "" = "" := by
+      unfold callTM at hcall
+      split at hcall
+      · cases hcall
+      · rename_i t ht
+        simp only [Option.some.injEq, Prod.mk.injEq] at hcall
+        obtain ⟨hc, _, _⟩ := hcall
+        subst hc
+        dsimp only
+        obtain ⟨_, _, _, hex, _, hs⟩ := rs_spec { t with hasRevKey := c.wlSeen } c.net c.mem
+        have href : t.hasRef = true := by
+          unfold trCtx at ht; split at ht <;> simp at ht <;> (try rw [← ht]) <;> (try simp [hro, hhas])
+        intro hse
+        exact hs href (by rw [← hex]; exact hse) hseen
+    -- no second call: the first-step re-pin is skipped for a full step
+    have hw : c1.wl = c.wl := hsub.2.2.2.2.1
+    obtain ⟨c2, rt2, e2, hcall2, hcase2⟩ := afterRetryCall_spec _ _ _ _ hk
+    simp only [false_and, and_false, if_false] at hcall2
+    simp only [Option.some.injEq, Prod.mk.injEq] at hcall2
+    obtain ⟨hc2, hrt2, he2⟩ := hcall2
+    subst hc2
+    rcases hcase2 with ⟨_, hx⟩ | ⟨_, hx⟩ | ⟨_, _, hup⟩
+    · rcases hx with hx | hx
+      · rw [← he2] at hx; cases hx
+      · rw [← hrt2] at hx; cases hx
+    · rw [← hrt2] at hx; cases hx
+    · obtain ⟨_, _, hn, _⟩ := upgradeStep_spec _ _ _ _ _ hup
+      rw [hn]; exact hnet
+
 /-! ### what a task leaves alone -/
 
 /-- nothing the rollout removed has come back (network part) -/
